@@ -159,6 +159,7 @@ type Exec struct {
 	poison           func()
 	poisonOnce       sync.Once
 	Poisoned         atomic.Bool
+	EmitOverlaps     atomic.Int64 // scheduler state reports that arrived while another one was still being delivered to the same emitter
 	EmitGoexits      atomic.Int64 // state reports at which the emitter killed its goroutine
 	paramSeq         atomic.Int64
 	ParamsOutOfOrder atomic.Int64  // Params values asked for out of their order (or again)
